@@ -19,4 +19,6 @@ for d in sorted(glob.glob(os.path.join(VERIF, "seeded", "*"))):
         else:
             miss.append(pid)
     desc = m["description"].replace("\n", " ").replace("|", "/")[:230]
+    if m.get("kind", "").startswith("behaviour-preserving"):
+        desc = "(BEHAVIOUR-PRESERVING refactoring) " + desc[:190]
     print("| %s | %s | %s | %s |" % (os.path.basename(d), desc, ", ".join(det) or "-", ", ".join(miss) or "-"))
